@@ -317,7 +317,10 @@ impl Sched {
                     }
                     2 => 0,
                     _ => {
-                        if let Some(m) = others.iter().max() {
+                        if !others.is_empty() && g.spawner_budget % 2 == 0 {
+                            // the late workers run interleaved: each holds a chunk while the others make progress
+                            rnd_of(g, &others)
+                        } else if let Some(m) = others.iter().max() {
                             *m
                         } else if has_spawner {
                             0
